@@ -287,15 +287,26 @@ func VH06c_unsub_qlen() {
 	side := vt.Listen(sock, "a")
 	pub := side.Peer("pub")
 	var o optObj = sock
-	if verif.Choice("ctx", 2) == 1 {
+	// the queue length is set on the object itself, or on the socket before the context is opened (inherited)
+	inherited := false
+	switch verif.Choice("ctx", 3) {
+	case 1:
 		c, err := sock.OpenContext()
 		verif.Assert(err == nil, lab+"/context")
 		o = c
+	case 2:
+		verif.Assert(sock.SetOption(mangos.OptionReadQLen, q) == nil, lab+"/set-qlen-on-socket")
+		c, err := sock.OpenContext()
+		verif.Assert(err == nil, lab+"/context")
+		o = c
+		inherited = true
 	}
 	type rcv interface {
 		RecvMsg() (*mangos.Message, error)
 	}
-	verif.Assert(o.SetOption(mangos.OptionReadQLen, q) == nil, lab+"/set-qlen")
+	if !inherited {
+		verif.Assert(o.SetOption(mangos.OptionReadQLen, q) == nil, lab+"/set-qlen")
+	}
 	verif.Assert(o.SetOption(mangos.OptionSubscribe, []byte{}) == nil, lab+"/subscribe-all")
 	t := verif.Bytes("topic", 1)
 	verif.Assert(o.SetOption(mangos.OptionSubscribe, t) == nil, lab+"/subscribe-topic")
